@@ -105,6 +105,9 @@ def run(chk, repo, tier):
     chk.clause('C09-f', 'both branches transform the same centred embedding of the field', 2)
     chk.clause('C09-g', 'output metadata', 3)
     chk.clause('C09-h', 'centred-FFT nesting fftshift(fft2(ifftshift(x))), orthonormal', 2)
+    from .c02 import field_accumulation as _field_accumulation
+    from .common import Remap as _Remap
+    _field_accumulation(_Remap(chk, {'C02-g': 'C09-f'}), repo, 'C02-g')
     chk.not_decided += ['numerical agreement with propagate_dft']
 
     cfg = {'shape': pair('shape')}
